@@ -6,19 +6,26 @@
 //!   f = `m = { "<input>" }` formatted with format_pattern (writer path of the resolver), `na` when the parser
 //!       does not admit the literal
 //!   r = `n = { ID("<input>") }` with ID returning its argument (resolve path of the resolver)
+//!   k = `k = { NAMED(x: "<input>") }` with NAMED returning its named argument x
+//!   t = `p = { -t(x: "<input>") }` with `-t = { $x }` (named argument of a parameterized term)
+//!   q = `q = { "<input>" -> [a] A *[o] { "<input>" } }` (literal as selector; default arm prints it)
 use fluent_bundle::{FluentArgs, FluentBundle, FluentResource, FluentValue};
 use fluent_syntax::unicode::{unescape_unicode, unescape_unicode_to_string};
 use fvh::util::*;
 use std::borrow::Cow;
 use std::panic;
 
-fn through_bundle(input: &str) -> (String, String) {
-    let src = format!("m = {{ \"{}\" }}\nn = {{ ID(\"{}\") }}\n", input, input);
+fn through_bundle(input: &str) -> Vec<String> {
+    let na = |s: &str| vec![s.to_string(); 5];
+    let src = format!(
+        "m = {{ \"{0}\" }}\nn = {{ ID(\"{0}\") }}\nk = {{ NAMED(x: \"{0}\") }}\n-t = {{ $x }}\np = {{ -t(x: \"{0}\") }}\nq = {{ \"{0}\" ->\n [a] A\n *[o] {{ \"{0}\" }}\n }}\n",
+        input
+    );
     // a panic inside the parser is C01's business (finding F1), not an observation of the decoder
     let res = match panic::catch_unwind(|| FluentResource::try_new(src)) {
         Ok(Ok(r)) => r,
-        Ok(Err(_)) => return ("na".into(), "na".into()),
-        Err(_) => return ("na-parser-panic".into(), "na-parser-panic".into()),
+        Ok(Err(_)) => return na("na"),
+        Err(_) => return na("na-parser-panic"),
     };
     let mut bundle: FluentBundle<FluentResource> = FluentBundle::new(vec!["en-US".parse().unwrap()]);
     bundle.set_use_isolating(false);
@@ -28,11 +35,17 @@ fn through_bundle(input: &str) -> (String, String) {
             _ => FluentValue::Error,
         })
         .unwrap();
+    bundle
+        .add_function("NAMED", |_: &[FluentValue], named: &FluentArgs| match named.get("x") {
+            Some(FluentValue::String(s)) => FluentValue::String(Cow::Owned(s.to_string())),
+            _ => FluentValue::Error,
+        })
+        .unwrap();
     if bundle.add_resource(res).is_err() {
-        return ("na".into(), "na".into());
+        return na("na");
     }
     let mut out = vec![];
-    for id in ["m", "n"] {
+    for id in ["m", "n", "k", "p", "q"] {
         let o = match bundle.get_message(id).and_then(|m| m.value()) {
             Some(p) => {
                 let mut errs = vec![];
@@ -47,7 +60,7 @@ fn through_bundle(input: &str) -> (String, String) {
         };
         out.push(o);
     }
-    (out[0].clone(), out[1].clone())
+    out
 }
 
 fn run(payload: &str) -> String {
@@ -83,11 +96,11 @@ fn run(payload: &str) -> String {
         Ok(x) => x,
         Err(_) => "w:panic".to_string(),
     };
-    let (f, r) = match panic::catch_unwind(|| through_bundle(&input)) {
+    let b = match panic::catch_unwind(|| through_bundle(&input)) {
         Ok(x) => x,
-        Err(_) => ("panic".to_string(), "panic".to_string()),
+        Err(_) => vec!["panic".to_string(); 5],
     };
-    format!("{};{};f:{};r:{}", s, w, f, r)
+    format!("{};{};f:{};r:{};k:{};t:{};q:{}", s, w, b[0], b[1], b[2], b[3], b[4])
 }
 
 fn main() {
